@@ -1359,6 +1359,16 @@ package main
 //@ lemma [C20] note_kind_roundtrip: forall w string :: (w == "kp" || w == "read" || w == "recv" || w == "call") ==> pbInfoNoteWhatDeserialize(pbInfoNoteWhatSerialize(w)) == w
 //@ lemma [C20] call_event_roundtrip: forall e string :: (e == "accept" || e == "answer" || e == "hang-up" || e == "ice-candidate" || e == "invite" || e == "offer" || e == "ringing") ==> pbCallEventDeserialize(pbCallEventSerialize(e)) == e
 
+// (a delete range received over gRPC names the same ids as in JSON; stated for the element written in each iteration)
+//@ func pbDelQueryDeserialize(in []*pbx.SeqRange) (out []MsgDelRange)
+//@   modifies nothing
+//@   ensures [C13,C20] same_length: len(out) == len(in)
+//@   loop 1
+//@     invariant [C13,C20] so_far: 0 <= #idx && #idx <= len(in) && len(out) == len(in)
+//@     iterates [C20] range_kept: in[prev(#idx)] != nil ==> out[prev(#idx)].LowId == int(in[prev(#idx)].Low) && out[prev(#idx)].HiId == int(in[prev(#idx)].Hi)
+//@   nopanic
+//@   safe
+
 // C20: a presence notice keeps its actor and its target apart on the wire.
 //@ func pbServPresSerialize(pres *MsgServerPres) (r *pbx.ServerMsg_Pres)
 //@   requires [C20] pres != nil
